@@ -1,7 +1,7 @@
 (* C05 - property theorems only (proofs: C05_Proofs, C05_ProofsNp, C05_ProofsCodec, C05_ProofsText,
-   C05_ProofsFile). *)
-From HV Require Import Prelude Tracts BpText C05_Model C05_Check C05_Proofs C05_ProofsNp C05_ProofsCodec
-  C05_ProofsText C05_ProofsFile.
+   C05_ProofsFile, C05_ProofsHist). *)
+From HV Require Import Prelude Tracts BpText C05_Model C05_Check C05_CheckHist C05_Proofs C05_ProofsNp C05_ProofsCodec
+  C05_ProofsText C05_ProofsFile C05_ProofsHist.
 
 (* _find_blocks returns, for every position, the index i of the first end >= it
    (ends[i] >= p, every earlier end < p); it raises iff some position has no such end *)
@@ -431,3 +431,132 @@ Theorem C05_encoded_lookup_commutes_np :
       rmap (map (map (pair_map (code_of labels)))) (population_array_np d vs req).
 Proof. exact encoded_lookup_commutes_np. Qed.
 Print Assumptions C05_encoded_lookup_commutes_np.
+
+(* ---- histories of calls that share their argument objects (C05_CheckHist) ---------------- *)
+
+(* The model of the reader is a function of the file and the request: a history of reads with
+   the same request returns the same answer each time, however many there are ... *)
+Theorem C05_read_idempotent_request :
+  forall (strict : bool) (parse_int parse_flt : str -> res Z) (fmt_int fmt_flt : Z -> str) (key : str -> Z)
+         (req : option (list str)) (qs : list (str * Z)) (order : option (list str)) (n : nat)
+         (files : list (Z * list (list str))) (cur : option ctable) (f : Z) (ls : list (list str)),
+  zassoc f files = Some ls ->
+  hrun strict parse_int parse_flt fmt_int fmt_flt key req qs order (mkhs files cur) (repeat (HRead f) n) =
+  repeat (MRead (bp_read strict parse_int parse_flt req ls)) n.
+Proof. exact read_idempotent_request. Qed.
+Print Assumptions C05_read_idempotent_request.
+
+(* ... and whatever reads of other files and lookups stand between them *)
+Theorem C05_reads_same_answer_in_history :
+  forall (strict : bool) (parse_int parse_flt : str -> res Z) (fmt_int fmt_flt : Z -> str) (key : str -> Z)
+         (req : option (list str)) (qs : list (str * Z)) (order : option (list str))
+         (ops : list hop) (st : hstate) (i : nat) (f : Z) (ls : list (list str)),
+  forallb no_write ops = true ->
+  nth_error ops i = Some (HRead f) -> zassoc f (hs_files st) = Some ls ->
+  nth_error (hrun strict parse_int parse_flt fmt_int fmt_flt key req qs order st ops) i =
+  Some (MRead (bp_read strict parse_int parse_flt req ls)).
+Proof. exact hrun_reads_same_answer. Qed.
+Print Assumptions C05_reads_same_answer_in_history.
+
+(* a subset is read, written to any file and read from there with the same request: identical
+   samples, order, labels, chromosomes, positions, centimorgan values - both times *)
+Theorem C05_hist_subset_roundtrip :
+  forall (strict : bool) (parse_int parse_flt : str -> res Z) (fmt_int fmt_flt : Z -> str) (key : str -> Z)
+         (req : option (list str)) (qs : list (str * Z)) (order : option (list str)) (d : ctable) (g : Z),
+  Forall (wf_sample parse_int parse_flt fmt_int fmt_flt) d -> NoDup (map fst d) ->
+  hrun strict parse_int parse_flt fmt_int fmt_flt key req qs order
+       (mkhs [(0, bp_write fmt_int fmt_flt d)] None) [HRead 0; HWrite g; HRead g] =
+  [MRead (Ok (restrict req d)); MWrite (Ok (bp_write fmt_int fmt_flt (restrict req d)));
+   MRead (Ok (restrict req d))].
+Proof. exact hist_subset_roundtrip. Qed.
+Print Assumptions C05_hist_subset_roundtrip.
+
+Theorem C05_hist_subset_roundtrip_example :
+  Forall (wf_sample toy_parse toy_parse toy_fmt toy_fmt) toy_tbl /\ NoDup (map fst toy_tbl) /\
+  hrun true toy_parse toy_parse toy_fmt toy_fmt (fun _ => 0) (Some [[98]]) [] None
+       (mkhs [(0, bp_write toy_fmt toy_fmt toy_tbl)] None) [HRead 0; HWrite 2; HRead 2]
+  = [MRead (Ok (restrict (Some [[98]]) toy_tbl));
+     MWrite (Ok (bp_write toy_fmt toy_fmt (restrict (Some [[98]]) toy_tbl)));
+     MRead (Ok (restrict (Some [[98]]) toy_tbl))].
+Proof. exact hist_subset_roundtrip_example. Qed.
+Print Assumptions C05_hist_subset_roundtrip_example.
+
+(* soundness of holds_hist's fold, evaluated on what the implementation returned call by call:
+   a read returned the requested samples of the table its file holds at that moment *)
+Theorem C05_holds_hist_read_sound :
+  forall (key : str -> Z) (req : option (list str)) (qs : list (str * Z)) (order : option (list str))
+         (ops1 : list hop) (f : Z) (ops3 : list hop) (obs1 : list hobs) (r : res ctable) (a : option (list str))
+         (obs3 : list hobs) (s : sstate),
+  holds_run key req qs order s (ops1 ++ HRead f :: ops3) (obs1 ++ ORead r a :: obs3) = true ->
+  hist_wf req s (ops1 ++ HRead f :: ops3) = true ->
+  length ops1 = length obs1 ->
+  exists t, zassoc f (fst (srun req s ops1)) = Some t /\ r = Ok (restrict req t).
+Proof. exact holds_run_read_sound. Qed.
+Print Assumptions C05_holds_hist_read_sound.
+
+(* the second read of a file returned what the first did (no write to that file in between) *)
+Theorem C05_holds_hist_reads_equal :
+  forall (key : str -> Z) (req : option (list str)) (qs : list (str * Z)) (order : option (list str))
+         (ops1 : list hop) (f : Z) (ops2 ops3 : list hop) (obs1 : list hobs) (r1 : res ctable) (a1 : option (list str))
+         (obs2 : list hobs) (r2 : res ctable) (a2 : option (list str)) (obs3 : list hobs) (s : sstate),
+  holds_run key req qs order s (ops1 ++ HRead f :: ops2 ++ HRead f :: ops3)
+            (obs1 ++ ORead r1 a1 :: obs2 ++ ORead r2 a2 :: obs3) = true ->
+  hist_wf req s (ops1 ++ HRead f :: ops2 ++ HRead f :: ops3) = true ->
+  length ops1 = length obs1 -> length ops2 = length obs2 ->
+  (forall g, In (HWrite g) ops2 -> g <> f) ->
+  r2 = r1 /\ exists t, r1 = Ok (restrict req t).
+Proof. exact holds_run_reads_equal. Qed.
+Print Assumptions C05_holds_hist_reads_equal.
+
+(* what was loaded, written to a file and read from it with the same request is identical *)
+Theorem C05_holds_hist_written_reads_back :
+  forall (key : str -> Z) (req : option (list str)) (qs : list (str * Z)) (order : option (list str))
+         (ops1 : list hop) (f g : Z) (ops3 : list hop) (obs1 : list hobs) (r1 : res ctable) (a1 : option (list str))
+         (w : hobs) (r2 : res ctable) (a2 : option (list str)) (obs3 : list hobs) (s : sstate),
+  holds_run key req qs order s (ops1 ++ HRead f :: HWrite g :: HRead g :: ops3)
+            (obs1 ++ ORead r1 a1 :: w :: ORead r2 a2 :: obs3) = true ->
+  hist_wf req s (ops1 ++ HRead f :: HWrite g :: HRead g :: ops3) = true ->
+  length ops1 = length obs1 ->
+  r2 = r1 /\ exists t, r1 = Ok (restrict req t).
+Proof. exact holds_run_written_reads_back. Qed.
+Print Assumptions C05_holds_hist_written_reads_back.
+
+(* a lookup was judged by holds_lookup_gen (C05_holds_lookup_sound) on the table loaded last,
+   for the samples in the order requested *)
+Theorem C05_holds_hist_look_sound :
+  forall (key : str -> Z) (req : option (list str)) (qs : list (str * Z)) (order : option (list str))
+         (ops1 ops3 : list hop) (obs1 : list hobs) (r : res (list (list (str * str)))) (qa : list (str * Z))
+         (oa : option (list str)) (obs3 : list hobs) (s : sstate),
+  holds_run key req qs order s (ops1 ++ HLook :: ops3) (obs1 ++ OLook r qa oa :: obs3) = true ->
+  hist_wf req s (ops1 ++ HLook :: ops3) = true ->
+  length ops1 = length obs1 ->
+  exists d, snd (srun req s ops1) = Some d /\
+    holds_lookup_gen (table_of key d) (map (var_of key) qs) (option_map (map key) order) (obsZ key r) = true.
+Proof. exact holds_run_look_sound. Qed.
+Print Assumptions C05_holds_hist_look_sound.
+
+(* agree of relation hist: after every call the samples set, the variants array and the order
+   object are what the caller made them *)
+Theorem C05_hist_agree_args_unchanged :
+  forall (k : hcase) (ms : list mobs) (obs : list hobs),
+  forallb2 (obs_agree k) ms obs = true -> Forall (args_unchanged k) obs.
+Proof. exact hist_agree_args_unchanged. Qed.
+Print Assumptions C05_hist_agree_args_unchanged.
+
+(* a reader that uses the caller's set as its work-list: right once, then "Loaded 0 samples";
+   rejected by holds_run, which accepts the pure reader's observations *)
+Theorem C05_consuming_reader_refuted :
+  let ls := bp_write toy_fmt toy_fmt toy_tbl in
+  let req := [[97]] in
+  let c1 := read_consuming true toy_parse toy_parse req ls in
+  let c2 := read_consuming true toy_parse toy_parse (snd c1) ls in
+  fst c1 = Ok (restrict (Some req) toy_tbl) /\
+  hrun true toy_parse toy_parse toy_fmt toy_fmt (fun _ => 0) (Some req) [] None (mkhs [(0, ls)] None) [HRead 0; HRead 0]
+    = [MRead (fst c1); MRead (fst c1)] /\
+  snd c1 = [] /\ fst c2 = Ok [] /\
+  holds_run (fun _ => 0) (Some req) [] None ([(0, toy_tbl)], None) [HRead 0; HRead 0]
+            [ORead (fst c1) (Some (snd c1)); ORead (fst c2) (Some (snd c2))] = false /\
+  holds_run (fun _ => 0) (Some req) [] None ([(0, toy_tbl)], None) [HRead 0; HRead 0]
+            [ORead (fst c1) (Some req); ORead (fst c1) (Some req)] = true.
+Proof. exact consuming_reader_refuted. Qed.
+Print Assumptions C05_consuming_reader_refuted.
